@@ -32,6 +32,9 @@ def run(ctx):
     rule_T8i(ctx)
     rule_M3(ctx)
     rule_M1(ctx)      # a stored point lies inside the bound it was drawn from
+    from ..rowfacts import rule_M2
+    rule_M2(ctx, 'NeuralBound.contains')      # the shell split relies on contains(): every
+    rule_M2(ctx, 'NautilusBound.contains')    # member must test the point in one frame
     from ..rowfacts import rule_A4
     rule_A4(ctx)      # ... which needs the members' samples in the columns their tests read
     # ... and not inside a member the union has dropped since: proposals cached before a
